@@ -77,7 +77,15 @@ func genSplit(w *bufio.Writer, tier string, r *rng) {
 func init() { propTable["C12"] = propC12 }
 
 // c12Check evaluates the partition clauses of C12 on the real splitter against the real token stream.
+// c12Check: the raw call under the deadline of safely (a lexer or splitter that loops is reported, not waited for).
 func c12Check(s string) (nontrivial bool, detail string) {
+	if p := safely(func() { nontrivial, detail = c12CheckRaw(s) }); p != nil {
+		detail = fmt.Sprint("SplitRawStatements: ", p)
+	}
+	return
+}
+
+func c12CheckRaw(s string) (nontrivial bool, detail string) {
 	defer func() {
 		if r := recover(); r != nil {
 			detail = fmt.Sprint("SplitRawStatements panicked: ", r)
@@ -215,7 +223,15 @@ func propC12(o *propOpts) *propResult {
 var splitHintSuffixes = []string{";", ";'", ";\"", ";`", ";'''", ";\"\"\"", "; x", ";*/", ";\n"}
 
 // c12CheckRef evaluates C12 on the real splitter against the REFERENCE token stream of s.
+// c12CheckRef: the raw call under the deadline of safely (a lexer or splitter that loops is reported, not waited for).
 func c12CheckRef(s string, toks []refToken, lexes bool) (detail string) {
+	if p := safely(func() { detail = c12CheckRefRaw(s, toks, lexes) }); p != nil {
+		detail = fmt.Sprint("SplitRawStatements: ", p)
+	}
+	return
+}
+
+func c12CheckRefRaw(s string, toks []refToken, lexes bool) (detail string) {
 	defer func() {
 		if r := recover(); r != nil {
 			detail = fmt.Sprint("SplitRawStatements panicked: ", r)
